@@ -228,12 +228,12 @@ fn output_failure_proven(obs: &Obs) -> bool {
             }
         }
     }
-    cmds.sort();
-    let Some((_, x1)) = cmds.first() else { return false };
-    // a quiet point after the first command was completely written, and a later command that was
-    // completely written before the quiescent point
-    let Some(tq) = obs.quiet.iter().map(|x| x.0).find(|t| t > x1) else { return false };
-    cmds.iter().any(|(y0, y1)| *y0 > tq && *y1 < obs.q)
+    // a quiet point after one command was completely written, and a command issued after that quiet
+    // point and completely written before the quiescent point
+    cmds.iter().any(|(_, x1)| {
+        let Some(tq) = obs.quiet.iter().map(|x| x.0).find(|t| t > x1) else { return false };
+        cmds.iter().any(|(y0, y1)| *y0 > tq && *y1 < obs.q)
+    })
 }
 
 pub fn check(cfg: &Config, script: &[Step], obs: &Obs, out: &mut dyn Sink) -> Summary {
@@ -532,9 +532,12 @@ pub fn check(cfg: &Config, script: &[Step], obs: &Obs, out: &mut dyn Sink) -> Su
                     "lost" => "events the lane sent after the consumer was owed them were never delivered",
                     _ => "the events received are not in the order the lane sent them (or one is duplicated)",
                 };
+                // (a consumer that attached after nobody had listened for longer than the runtime's
+                // `empty_timeout` - only in the `faults-*` parts - gets a signature of its own)
+                let after_idle = if co.idle_ms_before_attach.map_or(false, |ms| ms >= cfg.timeout_ms) { "/joined-after-idle-timeout" } else { "" };
                 cx.violate(
                     out,
-                    format!("events/{lane}/{class}/{sync_s}"),
+                    format!("events/{lane}/{class}/{sync_s}{after_idle}"),
                     format!("consumer {c}: {what}"),
                     json!({
                         "consumer": c,
@@ -561,7 +564,11 @@ pub fn check(cfg: &Config, script: &[Step], obs: &Obs, out: &mut dyn Sink) -> Su
         // served `linked` (if the link is up) and `unlinked` by the same turn of the read task. Two or
         // more frames before `unlinked` show that a later turn served the consumer: the read task
         // had it on its lists with its vote rescinded, and only this consumer going away (its reader
-        // is still there: it received `unlinked`) lets the read task vote again.
+        // is still there: it received `unlinked`) lets the read task vote again. So does a quiet point
+        // (virtual time passed: every task was idle) between the receipts of the first frame and of
+        // `unlinked` by a reader that was never stalled: such a reader takes what is available before
+        // it goes idle, so `unlinked` was not yet written when `linked` had been read, whereas the
+        // turn that refuses a newcomer writes both without waiting for anything but the newcomer.
         if let Some(i) = i_unlinked {
             if i < co.frames_at_q {
                 let t_unl = co.frames[i].0;
@@ -570,7 +577,9 @@ pub fn check(cfg: &Config, script: &[Step], obs: &Obs, out: &mut dyn Sink) -> Su
                 if fault_before {
                     out.count("fault/sessions-unlinked-after-a-lane-fault");
                 } else if ms_unl >= cfg.timeout_ms {
-                    if i >= 2 {
+                    let t_first = co.frames[0].0;
+                    let idle_in_between = i >= 1 && !co.ever_stalled && obs.quiet.iter().any(|x| x.0 > t_first && x.0 < t_unl);
+                    if i >= 2 || idle_in_between {
                         cx.violate(
                             out,
                             format!("stopped-while-consumer-attached/{lane}"),
